@@ -33,12 +33,14 @@ if confirmed:
     if results[pid + ":quick"][0] != "DETECTED":
         sys.path.insert(0, os.path.join(ROOT, "scripts"))
         from props import PROPS
+        # related properties' quick checks only when asked for (SEEDED_OTHERS="C08 C13" or "all")
+        wanted = os.environ.get("SEEDED_OTHERS", "").split()
         for other in sorted(PROPS):
-            if other != pid:
+            if other != pid and (other in wanted or "all" in wanted):
                 r = run(other)
                 if r[0] == "DETECTED":
                     results[other + ":quick"] = r
-        if not any(v[0] == "DETECTED" for v in results.values()):
+        if not any(v[0] == "DETECTED" for v in results.values()) and os.environ.get("SEEDED_THOROUGH", "1") == "1":
             results[pid + ":thorough"] = run(pid, "thorough")
 meta["checks_run"] = {k: {"verdict": v[0], "detail": v[1]} for k, v in results.items()}
 meta["detected_by"] = sorted(k for k, v in results.items() if v[0] == "DETECTED")
